@@ -568,7 +568,9 @@ var emailPool = []string{"alice@example.com", "ALICE@EXAMPLE.COM", "bob@example.
 	"eve@evil.com", "x@evilexample.com", "x@example.com.evil", "example.com@evil.org", "", "alice@example.com ", "ÀLICE@example.com",
 	// Unicode simple-fold neighbours of ASCII letters: U+017F LONG S (ToLower leaves it), U+212A KELVIN SIGN (ToLower gives k)
 	"\u017fam@corp.example", "sam@corp.example", "SAM@corp.example", "\u212aim@corp.example", "kim@corp.example", "x@\u017fk.example", "x@s\u212a.example", "x@sk.example",
-	" ", "alice@example.com\x00", longLocal + "@example.com"}
+	" ", "alice@example.com\x00", longLocal + "@example.com",
+	// for rules written with a leading dot (".example.com"): subdomain, literal dot-domain, look-alike
+	"u@sub.example.com", "u@.example.com", "u@evilexample.com", "U@SUB.Example.Com"}
 
 var longLocal = strings.Repeat("a", 300)
 
@@ -1248,6 +1250,11 @@ func main() {
 		// rules with letters that have Unicode simple-fold neighbours (s: U+017F, k: U+212A)
 		buildWorld(f, port, []string{"sam@corp.example", "Kim@corp.example"}, nil, p0, true),
 		buildWorld(f, port, nil, []string{"sk.example"}, p0, true),
+		// domain entries written with a leading dot (the notation of proxy root / cookie domains):
+		// NewEmailDomainValidator stores "@.example.com", which has a left boundary like any other entry
+		buildWorld(f, port, nil, []string{".example.com"}, p0, true),
+		buildWorld(f, port, nil, []string{".Example.com", "other.org"}, p0, true),
+		buildWorld(f, port, nil, []string{".example.com"}, pEx, true),
 	}
 	var firstW *world
 	for _, x := range worlds {
@@ -1321,6 +1328,24 @@ func main() {
 			cases = append(cases, w0.signInCase(f, sc))
 		}
 	}
+	// an IdP outage must not turn into "token valid": three consecutive validation outages on one
+	// long-lived authenticator (enough to trip a provider-side circuit breaker), then AT ONCE, in a
+	// tight loop, requests whose token the IdP reports as revoked / inactive; two rounds, so that a
+	// breaker that was half-open after round one is re-opened with a longer window
+	for _, slug := range slugs {
+		revoked := ans{400, "bad"}
+		if slug == "okta" {
+			revoked = ans{200, `{"active":false}`}
+		}
+		for round := 0; round < 2; round++ {
+			for _, st := range []int{503, 500, 502} {
+				cases = append(cases, w0.signInCase(f, siCase{nil, slug, okReq, cookieIn{Kind: "cookie", S: fresh}, okRefresh, ans{st, ""}}))
+			}
+			for k := 0; k < 4; k++ {
+				cases = append(cases, w0.signInCase(f, siCase{nil, slug, okReq, cookieIn{Kind: "cookie", S: fresh}, okRefresh, revoked}))
+			}
+		}
+	}
 	for _, k := range []cbCase{
 		{Slug: "google", Method: "GET", Code: "c1", StateKind: "genuine", CookieK: "genuine", RedirOK: true, Email: "alice@example.com", RedeemSt: 200},
 		{Slug: "okta", Method: "GET", Code: "c1", StateKind: "genuine", CookieK: "genuine", RedirOK: true, Email: "alice@example.com", RedeemSt: 200},
@@ -1374,6 +1399,18 @@ func main() {
 			s.Email = fc.email
 			cases = append(cases, fc.w.signInCase(f, siCase{nil, slug, okReq, cookieIn{Kind: "cookie", S: s}, okRefresh, okValidate}))
 			cases = append(cases, fc.w.callbackCase(f, cbCase{Slug: slug, Method: "GET", Code: "c1", StateKind: "genuine", CookieK: "genuine", RedirOK: true, Email: fc.email, RedeemSt: 200}))
+		}
+	}
+	// leading-dot domain entries: look-alike, subdomain, literal dot-domain and apex addresses, as
+	// cookie and as IdP-vouched identity
+	for _, wi := range []int{16, 17, 18} {
+		for _, email := range []string{"u@evilexample.com", "u@sub.example.com", "u@.example.com", "U@.EXAMPLE.COM", "alice@example.com", "u@example.com.evil", "carol@other.org", "carol@evilother.org"} {
+			for _, slug := range slugs {
+				s := fresh
+				s.Email = email
+				cases = append(cases, worlds[wi].signInCase(f, siCase{nil, slug, okReq, cookieIn{Kind: "cookie", S: s}, okRefresh, okValidate}))
+				cases = append(cases, worlds[wi].callbackCase(f, cbCase{Slug: slug, Method: "GET", Code: "c1", StateKind: "genuine", CookieK: "genuine", RedirOK: true, Email: email, RedeemSt: 200}))
+			}
 		}
 	}
 	for mode := 0; mode < 5; mode++ {
